@@ -23,6 +23,7 @@ type schedEntry struct {
 	N    int    `json:"n"`
 	To   string `json:"to"`
 	Op   string `json:"op"`
+	Arr  int    `json:"arr"`
 }
 
 type replayFile struct {
@@ -234,6 +235,25 @@ func Done()           { panic(assumeFalse{}) }
 // Stub redirects a function by full name under the symbolic executor. Natively the
 // real function runs (harnesses that need a native adaptor provide it themselves).
 func Stub(name string, f interface{}) {}
+
+// StubNative is Stub that also holds natively whenever the package under test is replayed from
+// its instrumented copy (schedule / crash-point replays): the instrumented function starts with
+// `if f := verifrt.NativeStub(name); f != nil { return f.(func(...))(...) }`. Only functions
+// declared in the packages under test can be redirected this way.
+func StubNative(name string, f interface{}) {
+	mu.Lock()
+	nativeStubs[name] = f
+	mu.Unlock()
+}
+
+var nativeStubs = map[string]interface{}{}
+var schedDebug = os.Getenv("VERIF_SCHED_DEBUG") != ""
+
+func NativeStub(name string) interface{} {
+	mu.Lock()
+	defer mu.Unlock()
+	return nativeStubs[name]
+}
 
 // Now is the model clock: natively the recorded reading, else the real clock.
 func Now() time.Time {
@@ -540,12 +560,21 @@ func schedPoint(pos string, isJoin bool) {
 		return // a goroutine the schedule does not know (not spawned through GoAt)
 	}
 	t.visits[pos]++
+	if schedDebug {
+		schedMu.Lock()
+		nxt := "-"
+		if schedK < len(rf.Schedule) {
+			nxt = rf.Schedule[schedK].From + "@" + rf.Schedule[schedK].Pos
+		}
+		fmt.Printf("VERIF-SCHED %s at %s #%d (next: %s)\n", t.name, pos, t.visits[pos], nxt)
+		schedMu.Unlock()
+	}
 	for {
 		schedMu.Lock()
 		var e *schedEntry
 		if schedK < len(rf.Schedule) {
 			c := &rf.Schedule[schedK]
-			if c.From == t.name && ((c.Pos == pos && (c.N == t.visits[pos] || isJoin)) || c.Pos == pos+"/wait") {
+			if c.From == t.name && ((c.Pos == pos && (c.N == t.visits[pos] || isJoin)) || (c.Pos == pos+"/wait" && (c.Arr == 0 || c.Arr == t.visits[pos]))) {
 				e = c
 				schedK++
 			}
